@@ -72,11 +72,6 @@ theorem frame_attachConv (s : St) (n c : String) : Frame s (attachConv s n c).1 
   repeat' split
   all_goals frame_tac
 
-theorem frame_detachConv (s : St) (n c : String) : Frame s (detachConv s n c) := by
-  unfold detachConv setTag; dsimp only
-  repeat' split
-  all_goals frame_tac
-
 theorem frame_inherit (s : St) : Frame s (inherit s) := by
   unfold inherit; frame_eq
 
@@ -106,6 +101,27 @@ theorem frame_startTagging (s : St) (c : Option String) : Frame s (startTagging 
   unfold startTagging getIndexesCopy; dsimp only
   repeat' split
   all_goals frame_tac
+
+-- CHANGED (dropped): new helper of `detachConv`; may start a tagging job (locks only grow)
+theorem frame_outputDropped (s : St) (choice : Option String) : Frame s (outputDropped s choice) := by
+  unfold outputDropped
+  split
+  · refine Frame.trans ?_ (frame_startTagging _ _)
+    refine Frame.trans ?_ (frame_invalidatedDuringTaggingJob _ _)
+    exact Frame.trans (by frame_eq) (frame_inherit _)
+  · exact Frame.refl _
+
+-- CHANGED (dropped): `detachConv` takes the tagging choice and may run `outputDropped`
+theorem frame_detachConv (s : St) (n c : String) (choice : Option String := none) :
+    Frame s (detachConv s n c choice) := by
+  unfold detachConv
+  split
+  · exact Frame.refl _
+  · dsimp only
+    split
+    · exact Frame.trans (by unfold setTag; frame_eq) (frame_outputDropped _ _)
+    · unfold setTag; frame_eq
+
 theorem Frame.with {s x y : St} (h : Frame s x) (h1 : y.idx = x.idx) (h2 : y.files = x.files) (h3 : y.next = x.next)
     (h4 : y.views = x.views) (h5 : y.jImport = x.jImport) (h6 : y.used = x.used) :
     Frame s y := h.trans (Frame.of_eq h1 h2 h3 h4 h5 h6)
@@ -207,7 +223,7 @@ theorem frame_step_delTag (s : St) (st : Started) (n : String) :
   · split
     · exact Frame.refl _
     · extract_lets s1 s2 s3
-      have h1 : Frame s s1 := Frame.foldl _ (fun s r => frame_detachConv _ _ _) _ _
+      have h1 : Frame s s1 := Frame.foldl _ (fun s r => frame_detachConv _ _ _ _) _ _
       clear_value s1
       have h2 : Frame s s2 := Frame.with h1 rfl rfl rfl rfl rfl rfl
       clear_value s2
@@ -298,7 +314,7 @@ theorem frame_step_updConv (s : St) (st : Started) (name : String) (convs : List
   extract_lets att s1 cur s2
   split
   · exact Frame.refl _
-  have h1 : Frame s s1 := Frame.foldl _ (fun s r => frame_detachConv _ _ _) _ _
+  have h1 : Frame s s1 := Frame.foldl _ (fun s r => frame_detachConv _ _ _ _) _ _
   clear_value s1
   have h2 : Frame s s2 := Frame.foldl' (fun s r => frame_attachConv _ _ _) h1
   clear_value s2
